@@ -88,6 +88,17 @@ def check_lockset(ctx):
                 "%s.%s (%s) accessed without %s; held: {%s}; reached via %s" %
                 (s, f, e["mode"], c, ",".join(sorted(held)), " > ".join(la.chain(fn, held, mode)[-6:])),
                 subject="%s.%s" % (s, f))
+    # the process-wide table of held file locks (a global, so not a member access): every call that
+    # is handed &file_set runs with the FILE mutex held
+    nf = 0
+    for fn, e, callee, held, mode in la.calls:
+        if mode != "mt":
+            continue
+        if any(argkey(e, k) == "&file_set" for k in range(len(e.get("a", [])))):
+            nf += 1
+            ctx.check("FILE" in held, "T3a-lockset", "file_set@%s:%s" % (fn.name, e["l"].split(":")[1]), fn.name, site(fn, e),
+                      "file_set touched with the FILE mutex held", "file_set is accessed without the FILE mutex", subject="file_set")
+    ctx.require(nf >= 3, "accesses to file_set not found (%d)" % nf)
     ctx.require(n_ok >= 300, "lockset: only %d guarded accesses analysed" % n_ok)
     ctx.note("lockset: %d contexts over %d functions; %d guarded accesses recorded" %
              (sum(len(v) for v in la.contexts.values()), len(la.contexts), len(la.accesses)))
